@@ -306,7 +306,7 @@ Section Fold.
           -- destruct Ha as [Ha|Ha]; [|right; exists a; exact Ha].
              injection Ha as -> ->. left. exact Hnotin.
         * rewrite map_map in Hk'. cbn [fst] in Hk'. apply in_map_iff in Hk' as (r & <- & _). left. exact Hnotin.
-      + exists cur'. rewrite E'. unfold C1. rewrite <- app_assoc. reflexivity.
+      + exists cur'. etransitivity; [exact E'|]. unfold C1. rewrite <- app_assoc. reflexivity.
   Qed.
 
   Lemma body_of_nodes l : NoDup (map fst l) -> Forall node_claim (map snd l) -> body_claim l.
@@ -338,6 +338,96 @@ Section Fold.
         cbn [flat_map fst snd] in Hk. rewrite map_app in Hk. apply in_app_or in Hk as [Hk|Hk].
         * destruct n0; cbn in Hk; try contradiction. destruct Hk as [<-|[]]. eexists. left. reflexivity.
         * destruct (IHl Hk) as (a & Ha). exists a. right. exact Ha.
-    - exists cur'. rewrite E. rewrite <- app_assoc. reflexivity.
+    - exists cur'. etransitivity; [exact E|]. rewrite <- app_assoc. reflexivity.
   Qed.
 End Fold.
+
+Section Nodes.
+  Local Notation T := (stree aval).
+
+  (* a body below a freshly defined table / array element, by framing *)
+  Lemma body_under (k : bytes) (l : list (bytes * anode)) (C1 C2 : T) (mk : T -> T) :
+    body_claim l ->
+    (forall (F : T -> res (T * list bytes)), at_path_x [k] F C1 = rbind (F []) (fun cx => ROk (mk (fst cx), snd cx))) ->
+    mk [] = C1 -> mk (body_res l) = C2 ->
+    exists cur', spec_fold false (C1, [k]) (body_stmts [k] l) = ROk (C2, cur').
+  Proof.
+    intros Hb Hwalk Hmk0 Hmk. destruct (Hb [] (fun _ _ => eq_refl)) as (cur1 & E1). cbn [app] in E1.
+    change [k] with ([k] ++ []) at 2. rewrite body_stmts_shift.
+    destruct (body_stmts [] l) as [|s0 l0] eqn:Es.
+    - cbn [spec_fold] in E1. injection E1 as E1 _. exists [k]. cbn [map spec_fold]. rewrite <- Hmk, <- E1, Hmk0. reflexivity.
+    - exists ([k] ++ cur1). change [k] with ([k] ++ []) at 1.
+      apply fold_frame; [rewrite <- Es; apply body_stmts_nonempty_hdr|discriminate|].
+      rewrite Hwalk. rewrite E1. cbn [rbind fst snd]. rewrite Hmk. reflexivity.
+  Qed.
+
+  Lemma spush_app (C : T) k n : spush C k n = C ++ [(k, n)].
+  Proof. reflexivity. Qed.
+
+  Theorem node_claim_all : forall n, wf_node n -> node_claim n.
+  Proof.
+    apply wf_node_strong.
+    - intros a k C cur _. exists cur. cbn. rewrite app_nil_r. reflexivity.
+    - intros l Hnd IH k C cur Hk. pose proof (body_of_nodes l Hnd IH) as Hb.
+      rewrite node_stmts_tbl, node_res_tbl. cbn [spec_fold].
+      assert (Estep : spec_step false (C, cur) (SHeader [k]) = ROk (spush C k (NTab KHeader []), [k])).
+      { cbn [spec_step]. change (unsnoc [k]) with (Some (@nil bytes, k)). cbn [at_path]. unfold def_table. rewrite Hk. reflexivity. }
+      rewrite Estep. cbn [rbind map].
+      apply (body_under k l _ _ (fun c => spush C k (NTab KHeader c)) Hb); [|reflexivity|reflexivity].
+      intro F. cbn [at_path_x]. rewrite (sget_spush_same _ _ _ Hk).
+      destruct (F []) as [[c1 x]| |]; cbn [rbind fst snd]; [|reflexivity|reflexivity].
+      rewrite (sset_spush _ _ _ _ Hk). reflexivity.
+    - intros ls IH k C cur Hk. rewrite node_stmts_aot, node_res_aot.
+      assert (Hbs : Forall body_claim ls).
+      { clear - IH. induction IH as [|l ls [Hnd Hl] _ IHls]; constructor; [apply body_of_nodes; assumption|exact IHls]. }
+      clear IH.
+      (* elements after the first: the array is already there *)
+      assert (Hrest : forall ls, Forall body_claim ls -> forall es cur0,
+                exists cur', spec_fold false (spush C k (NAot es), cur0)
+                                       (flat_map (fun l => SArrHeader [k] :: body_stmts [k] l) ls)
+                             = ROk (spush C k (NAot (es ++ map body_res ls)), cur')).
+      { clear ls Hbs. induction 1 as [|l ls Hl _ IHls]; intros es cur0.
+        - exists cur0. cbn [flat_map spec_fold map]. rewrite app_nil_r. reflexivity.
+        - cbn [flat_map]. change ((SArrHeader [k] :: body_stmts [k] l) ++ ?X) with (SArrHeader [k] :: (body_stmts [k] l ++ X)).
+          cbn [spec_fold].
+          assert (Estep : spec_step false (spush C k (NAot es), cur0) (SArrHeader [k])
+                          = ROk (spush C k (NAot (es ++ [[]])), [k])).
+          { cbn [spec_step]. change (unsnoc [k]) with (Some (@nil bytes, k)). cbn [at_path]. unfold def_elem.
+            rewrite (sget_spush_same _ _ _ Hk). rewrite (sset_spush _ _ _ _ Hk). reflexivity. }
+          rewrite Estep. cbn [rbind]. rewrite spec_fold_app.
+          destruct (body_under k l (spush C k (NAot (es ++ [[]]))) (spush C k (NAot (es ++ [body_res l])))
+                      (fun c => spush C k (NAot (es ++ [c]))) Hl) as (cur1 & E1); [|reflexivity|reflexivity|].
+          { intro F. cbn [at_path_x]. rewrite (sget_spush_same _ _ _ Hk). rewrite rev_app_distr. cbn [rev app].
+            destruct (F []) as [[c1 x]| |]; cbn [rbind fst snd]; [|reflexivity|reflexivity].
+            rewrite (sset_spush _ _ _ _ Hk), rev_involutive. reflexivity. }
+          rewrite E1. cbn [rbind].
+          destruct (IHls (es ++ [body_res l]) cur1) as (cur' & E'). exists cur'. rewrite E'.
+          cbn [map]. rewrite <- app_assoc. reflexivity. }
+      destruct ls as [|l ls].
+      + exists cur. cbn. rewrite app_nil_r. reflexivity.
+      + inversion Hbs as [|? ? Hl Hls]; subst.
+        cbn [flat_map]. change ((SArrHeader [k] :: body_stmts [k] l) ++ ?X) with (SArrHeader [k] :: (body_stmts [k] l ++ X)).
+        cbn [spec_fold].
+        assert (Estep : spec_step false (C, cur) (SArrHeader [k]) = ROk (spush C k (NAot ([] ++ [[]])), [k])).
+        { cbn [spec_step]. change (unsnoc [k]) with (Some (@nil bytes, k)). cbn [at_path]. unfold def_elem. rewrite Hk. reflexivity. }
+        rewrite Estep. cbn [rbind]. rewrite spec_fold_app.
+        destruct (body_under k l (spush C k (NAot ([] ++ [[]]))) (spush C k (NAot ([] ++ [body_res l])))
+                    (fun c => spush C k (NAot ([] ++ [c]))) Hl) as (cur1 & E1); [|reflexivity|reflexivity|].
+        { intro F. cbn [at_path_x app]. rewrite (sget_spush_same _ _ _ Hk). cbn [rev app].
+          destruct (F []) as [[c1 x]| |]; cbn [rbind fst snd]; [|reflexivity|reflexivity].
+          rewrite (sset_spush _ _ _ _ Hk). reflexivity. }
+        rewrite E1. cbn [rbind].
+        destruct (Hrest ls Hls ([] ++ [body_res l]) cur1) as (cur' & E'). exists cur'. rewrite E'.
+        cbn [map app]. reflexivity.
+  Qed.
+
+  (* a whole document: the statements of the root table's entries, from the empty state *)
+  Theorem doc_fold l : wf_entries l ->
+    exists cur', spec_fold false sstate0 (body_stmts [] l) = ROk (body_res l, cur').
+  Proof.
+    intros [Hnd Hl].
+    assert (Hcl : Forall node_claim (map snd l)).
+    { rewrite Forall_forall in *. intros n Hn. apply node_claim_all, Hl, Hn. }
+    destruct (body_of_nodes l Hnd Hcl [] (fun _ _ => eq_refl)) as (cur' & E). exists cur'. exact E.
+  Qed.
+End Nodes.
